@@ -227,8 +227,14 @@ def rule_backend_namespace(ctx, r):
     cs = idx.method(sl, "compile_script")
     r.check("self.log_mode ==" in ast.unparse(cs.node), f"{cs.module.relpath}::{cs.qual}::log_mode", "log_mode selects the log directives", "log_mode is not used by the Slurm script builder", cs.where)
     gj = idx.method(sl, "get_job_states")
-    r.check("if self.accounting_enabled" in ast.unparse(gj.node), f"{gj.module.relpath}::{gj.qual}::accounting_enabled", "accounting_enabled guards sacct",
-            "accounting_enabled is not used to guard the accounting query", gj.where)
+    from .evalhelpers import eval_slurm_states
+    _r1, e_on, q_on, _s1, _m1 = eval_slurm_states(ctx, 5, True)
+    _r2, e_off, q_off, _s2, _m2 = eval_slurm_states(ctx, 5, False)
+    _r3, _e3, q_off_fail, _s3, _m3 = eval_slurm_states(ctx, 5, False, fail="squeue")
+    r.check(e_on is None and e_off is None and q_on and not q_off and not q_off_fail, f"{gj.module.relpath}::{gj.qual}::accounting_enabled",
+            "sacct is run iff accounting_enabled (also when the queue query fails)",
+            f"accounting switch on -> {len(q_on)} sacct call(s), off -> {len(q_off)}, off with a failing squeue -> {len(q_off_fail)} (errors: {e_on}, {e_off}): "
+            "the configured switch must alone decide whether the accounting database is consulted", gj.where)
     lo = idx.cls("gwf.backends.local:LocalOps")
     cc = None
     for m in lo.methods.values():
